@@ -11,7 +11,10 @@
 // Decisive oracle (safety): every nil Scheduler.Download return implies that
 // the agent's cached file is byte-identical to the blob; no agent (finished,
 // unfinished or departed) ever has a cache file that differs from the blob; no
-// panic, no data race. Convergence is a bounded-progress watchdog; its expiry
+// panic, no data race. One liveness failure is decided logically (counted
+// events, no clock): an agent that stays gets >= 6 non-overlapping payloads with
+// the CORRECT bytes of a piece it still misses and refuses every one of them.
+// Everything else about convergence is a bounded-progress watchdog; its expiry
 // (after one retry with a fresh schedule) is INCONCLUSIVE, never a violation.
 package c19
 
@@ -294,6 +297,125 @@ func (t *corruptTorrent) GetPieceReader(i int) (storage.PieceReader, error) {
 }
 
 // ---------------------------------------------------------------------------
+// Logical progress rule (no wall clock): the harness sees every WritePiece call
+// on the agents that stay, with call/return stamps from one counter. If an
+// agent receives stuckK payloads for piece i whose bytes EQUAL the blob's piece
+// i, none of them overlapping any other write of i, and every one is refused
+// while the piece is still missing, the piece can never complete.
+
+const stuckK = 6
+
+var stampCounter atomic.Int64
+
+type writeRec struct {
+	Call, Ret int64
+	Correct   bool
+	Refused   bool
+	Missing   bool // piece still missing after the call
+	Err       string
+}
+
+type writeMonitor struct {
+	mu     sync.Mutex
+	agent  string
+	blob   []byte
+	pl     int64
+	writes map[int][]writeRec
+	stuck  map[string]interface{} // first witness
+	total  int64
+}
+
+func (m *writeMonitor) record(i int, r writeRec) {
+	m.mu.Lock()
+	defer m.mu.Unlock()
+	m.total++
+	m.writes[i] = append(m.writes[i], r)
+	if m.stuck != nil || !(r.Correct && r.Refused && r.Missing) {
+		return
+	}
+	ws := m.writes[i]
+	var errs []string
+	n := 0
+	for a, w := range ws {
+		if !(w.Correct && w.Refused && w.Missing) {
+			continue
+		}
+		overlap := false
+		for b, o := range ws {
+			if a != b && o.Call < w.Ret && w.Call < o.Ret {
+				overlap = true
+				break
+			}
+		}
+		if !overlap {
+			n++
+			errs = append(errs, w.Err)
+		}
+	}
+	if n >= stuckK {
+		m.stuck = map[string]interface{}{
+			"signature": "correct-piece-refused-repeatedly-while-missing", "peer": m.agent, "piece": i,
+			"correct_nonoverlapping_payloads_refused": n, "refusal_errors": errs, "writes_of_this_piece_seen": len(ws),
+		}
+	}
+}
+
+func (m *writeMonitor) stuckWitness() map[string]interface{} {
+	m.mu.Lock()
+	defer m.mu.Unlock()
+	return m.stuck
+}
+
+type watchArchive struct {
+	storage.TorrentArchive
+	m *writeMonitor
+}
+
+func (a *watchArchive) wrap(t storage.Torrent, err error) (storage.Torrent, error) {
+	if err != nil {
+		return nil, err
+	}
+	return &watchTorrent{Torrent: t, m: a.m}, nil
+}
+
+func (a *watchArchive) CreateTorrent(ns string, d core.Digest) (storage.Torrent, error) {
+	return a.wrap(a.TorrentArchive.CreateTorrent(ns, d))
+}
+
+func (a *watchArchive) GetTorrent(ns string, d core.Digest) (storage.Torrent, error) {
+	return a.wrap(a.TorrentArchive.GetTorrent(ns, d))
+}
+
+type watchTorrent struct {
+	storage.Torrent
+	m *writeMonitor
+}
+
+func (t *watchTorrent) WritePiece(src storage.PieceReader, i int) error {
+	b, rerr := io.ReadAll(src)
+	if rerr != nil {
+		return t.Torrent.WritePiece(src, i)
+	}
+	correct := false
+	if off := int64(i) * t.m.pl; i >= 0 && off <= int64(len(t.m.blob)) {
+		end := off + t.Torrent.PieceLength(i)
+		if end <= int64(len(t.m.blob)) {
+			correct = bytes.Equal(b, t.m.blob[off:end])
+		}
+	}
+	call := stampCounter.Add(1)
+	err := t.Torrent.WritePiece(piecereader.NewBuffer(b), i)
+	missing := !t.Torrent.HasPiece(i)
+	ret := stampCounter.Add(1)
+	r := writeRec{Call: call, Ret: ret, Correct: correct, Missing: missing}
+	if err != nil && err != storage.ErrPieceComplete {
+		r.Refused, r.Err = true, err.Error()
+	}
+	t.m.record(i, r)
+	return err
+}
+
+// ---------------------------------------------------------------------------
 
 type peer struct {
 	name    string
@@ -305,6 +427,7 @@ type peer struct {
 	events  *eventCounter
 	stopped atomic.Bool
 	result  chan error // Download result (agents)
+	mon     *writeMonitor
 }
 
 func freePort() int {
@@ -476,14 +599,19 @@ func (s *swarm) startAgent(i int) (*peer, error) {
 	if err != nil {
 		return nil, err
 	}
-	ta := agentstorage.NewTorrentArchive(tally.NoopScope, cads, fakeMetaInfoClient{s.mi})
+	var ta storage.TorrentArchive = agentstorage.NewTorrentArchive(tally.NoopScope, cads, fakeMetaInfoClient{s.mi})
+	var mon *writeMonitor
+	if a.StopAfter < 0 {
+		mon = &writeMonitor{agent: name, blob: s.blob, pl: int64(s.cfg.PieceLength), writes: map[int][]writeRec{}}
+		ta = &watchArchive{TorrentArchive: ta, m: mon}
+	}
 	cfg := s.schedConfig(a.PipelineLimit, a.OriginPipelineLimit, a.MaxConns, a.DisableEndgame, a.Policy)
 	evc := &eventCounter{total: &s.total, notify: make(chan struct{}, 1)}
 	sc, pctx, err := s.newScheduler(cfg, ta, false, evc)
 	if err != nil {
 		return nil, err
 	}
-	p := &peer{name: name, sched: sc, pctx: pctx, cads: cads, dir: d, events: evc, result: make(chan error, 1)}
+	p := &peer{name: name, sched: sc, pctx: pctx, cads: cads, dir: d, events: evc, result: make(chan error, 1), mon: mon}
 	s.peers = append(s.peers, p)
 	go func() { p.result <- sc.Download(namespace, s.digest) }()
 	return p, nil
@@ -516,6 +644,8 @@ type swarmResult struct {
 	Departed      int
 	Faults        int
 	WatchdogHit   bool
+	Stuck         bool
+	WritesSeen    int64
 	Pending       []string
 	DownloadErrs  []string
 	SetupErr      error
@@ -616,6 +746,18 @@ func runSwarm(run *ev.Run, t *testing.T, cfg swarmCfg, r *rand.Rand, bound time.
 			break
 		}
 		<-tick.C
+		for p := range pending {
+			if p.mon == nil {
+				continue
+			}
+			if w := p.mon.stuckWitness(); w != nil {
+				res.Stuck = true
+				res.Violations = append(res.Violations, w)
+			}
+		}
+		if res.Stuck {
+			break // decided by counted events; nothing more to wait for
+		}
 		if second != nil && !second.stopped.Load() && s.total.Load() >= int64(cfg.SeederLeaveAt) {
 			second.stopped.Store(true)
 			second.sched.Stop()
@@ -658,6 +800,24 @@ func runSwarm(run *ev.Run, t *testing.T, cfg swarmCfg, r *rand.Rand, bound time.
 	}
 	for _, p := range s.peers {
 		checkCache(p, "at-end")
+	}
+	if !res.Stuck {
+		for _, p := range agents {
+			if p.mon == nil {
+				continue
+			}
+			if w := p.mon.stuckWitness(); w != nil {
+				res.Stuck = true
+				res.Violations = append(res.Violations, w)
+			}
+		}
+	}
+	for _, p := range agents {
+		if p.mon != nil {
+			p.mon.mu.Lock()
+			res.WritesSeen += p.mon.total
+			p.mon.mu.Unlock()
+		}
 	}
 	res.CorruptServed = s.corrupt.Load()
 	if res.CorruptServed > 0 {
@@ -714,7 +874,7 @@ func TestC19(t *testing.T) {
 				cfg := cfgs[i]
 				caseID := fmt.Sprintf("swarm-%d", i)
 				res := runSwarm(run, t, cfg, rand.New(rand.NewSource(seeds[i])), bound)
-				if res.SetupErr == nil && res.WatchdogHit {
+				if res.SetupErr == nil && res.WatchdogHit && !res.Stuck {
 					run.Count("swarms_retried_after_watchdog", 1)
 					first := res
 					cfg.Attempt = 1
@@ -742,6 +902,7 @@ func TestC19(t *testing.T) {
 				run.Count("agents_completed_and_byte_compared", int64(res.Completed))
 				run.Count("agents_departed_mid_transfer", int64(res.Departed))
 				run.Count("corrupted_pieces_served", res.CorruptServed)
+				run.Count("write_piece_calls_monitored", res.WritesSeen)
 				run.Count("faults_in_effect", int64(res.Faults))
 				if cfg.BlobSize == 0 {
 					run.Count("swarms_with_empty_blob", 1)
